@@ -56,11 +56,11 @@ pub enum Event {
     },
     /// The global type registry mutex is about to be locked
     TypeRegistryLock,
-    /// Machine code of a module became callable
+    /// A handle to a function in the machine code of a module was created
     CodeLive {
         /// Module identifier
         module: usize,
-        /// Start of a function
+        /// Start of the function
         start: usize,
     },
     /// Machine code of a module is about to be freed
@@ -70,6 +70,8 @@ pub enum Event {
     },
     /// A compiled function is about to be called
     CodeCall {
+        /// Module identifier
+        module: usize,
         /// Address of the function
         func: usize,
     },
